@@ -5,6 +5,7 @@ import (
 	"go/constant"
 	"go/token"
 	"go/types"
+	"os"
 	"sort"
 	"strconv"
 	"strings"
@@ -24,9 +25,9 @@ type fsClient struct {
 	stackT, additionT, readerT, mergedT, writerT *types.Named
 	listField, dirField                          string
 	oExcl, oCreate, oWrite                       int64
-	entry                                        string // entry point being analysed
+	entry                                        string             // entry point being analysed
 	summaries                                    map[string][]*Term // entry point -> abstract error results of its exits
-	faults                                       bool   // advisory run with I/O fault outcomes
+	faults                                       bool               // advisory run with I/O fault outcomes
 	events                                       int
 }
 
@@ -543,7 +544,13 @@ func (c *fsClient) OnLoopExit(x *Exec, st *State, all *Term, backs []*State) {
 			drewName = true
 			if _, ok := b.ghost.(*fsGhost).iterOK[all.key]; !ok {
 				allOK = false
+				if os.Getenv("RSA_DEBUG") == "3" {
+					fmt.Fprintf(os.Stderr, "  back without iterOK: %v\n", witnessOf(c.p, b.trace)[max(0, len(witnessOf(c.p, b.trace))-6):])
+				}
 			}
+		}
+		if os.Getenv("RSA_DEBUG") == "3" {
+			fmt.Fprintf(os.Stderr, "OnLoopExit %s backs=%d drewName=%v allOK=%v\n", all.Aux, len(backs), drewName, allOK)
 		}
 		if drewName && allOK {
 			for _, cl := range st.mem {
@@ -658,9 +665,18 @@ func (c *fsClient) Call(x *Exec, st *State, fr *Frame, site ssa.CallInstruction,
 		k := c.kind(st, args[0])
 		content := mk("content", fr.ctx+"/"+siteID(fr, site), nil, x.curMark())
 		c.note(st, pos, "read %s", k)
-		s2 := st.clone()
-		s2.note(pos, "read %s: does not exist", k)
-		outs := []CallOut{{St: st, Val: tupleOf(content, tNil)}, {St: s2, Val: tupleOf(tNil, errT("ENOENT"))}}
+		outs := []CallOut{{St: st, Val: tupleOf(content, tNil)}}
+		// rely R3: conforming handles never remove the list, so it is missing
+		// only while nothing was ever committed - then every handle's stack is
+		// empty, and this path cannot have committed.
+		if k != kList || !g.isSet("listRenamed") {
+			s2 := st.clone()
+			s2.note(pos, "read %s: does not exist (nothing was ever committed)", k)
+			if cur := c.currentStack(s2); k == kList && cur != nil && cur.Op != "list" && !cur.isNilConst() {
+				s2.setFact(tEq(mk("len", "", nil, cur), tConst("0", nil)), true)
+			}
+			outs = append(outs, CallOut{St: s2, Val: tupleOf(tNil, errT("ENOENT"))})
+		}
 		return true, outs
 	case "io/ioutil.ReadDir", "os.ReadDir":
 		l := mk("dirents", fr.ctx+"/"+siteID(fr, site), nil, x.curMark())
@@ -844,6 +860,14 @@ func (c *fsClient) openFile(x *Exec, st *State, fr *Frame, site ssa.CallInstruct
 func (c *fsClient) open(x *Exec, st *State, fr *Frame, site ssa.CallInstruction, p *Term) []CallOut {
 	h := mk("file", fr.ctx+"/"+siteID(fr, site), nil, x.curMark())
 	c.g(st).fileOf[gk(h)] = p
+	// rely R1: a table named by the current list exists; while this operation
+	// holds the list lock nobody can replace the list, so a listed table
+	// cannot vanish between the list read and the open.
+	if c.holdsListLock(st) && c.kind(st, p) == kTable {
+		if n, ok := c.joinParts(st, undraw(p)); ok && !n.containsOp("direntname") {
+			return []CallOut{{St: st, Val: tupleOf(h, tNil)}}
+		}
+	}
 	s2 := st.clone()
 	s2.note(site.Pos(), "event: open %s: does not exist (removed by a concurrent compaction)", p)
 	return []CallOut{{St: st, Val: tupleOf(h, tNil)}, {St: s2, Val: tupleOf(tNil, errT("ENOENT"))}}
@@ -852,7 +876,7 @@ func (c *fsClient) open(x *Exec, st *State, fr *Frame, site ssa.CallInstruction,
 // referenceList is the list against which "visible" is judged.
 func (c *fsClient) referenceList(st *State) (*Term, string) {
 	g := c.g(st)
-	if l := g.flag("committed"); l != nil {
+	if l := g.flag("committed"); l != nil && !g.isSet("readAfterCommit") {
 		return l, "the list this operation just committed"
 	}
 	if l := g.flag("lastNames"); l != nil {
@@ -1074,6 +1098,7 @@ func (c *fsClient) commitList(x *Exec, st *State, fr *Frame, site ssa.CallInstru
 		g.setFlag("committed", tList(false, nil))
 	}
 	g.setFlag("listRenamed", tTrue)
+	g.setFlag("readAfterCommit", nil)
 	delete(g.held, a.key)
 	delete(g.tmps, a.key)
 	g.setFlag("validated", nil)
